@@ -3,3 +3,4 @@ pub mod report;
 pub mod sys;
 pub mod rt;
 pub mod watch;
+pub mod sio;
